@@ -82,24 +82,24 @@ type Env struct {
 	r  *Rng
 
 	// configuration (constant over a scenario unless the scenario changes it between steps)
-	SwapsAllowed   bool
-	LiquidEnabled  bool
-	BitcoinEnabled bool
-	MinAmountMsat  uint64
-	PeerAllowed    bool
-	PeerSuspicious bool
-	Chain          string // "btc" / "lbtc": which wallet/watcher pair is consulted
-	BtcNetwork     string
-	LbtcAsset      string
+	SwapsAllowed    bool
+	LiquidEnabled   bool
+	BitcoinEnabled  bool
+	MinAmountMsat   uint64
+	PeerAllowed     bool
+	PeerSuspicious  bool
+	Chain           string // "btc" / "lbtc": which wallet/watcher pair is consulted
+	BtcNetwork      string
+	LbtcAsset       string
 	CsvBtc, CsvLbtc uint32
-	CurHeight      uint32 // default answer of GetBlockHeight
-	lastTip        uint32 // last height answered by GetBlockHeight
-	Decode         map[string]DecodeRes
+	CurHeight       uint32 // default answer of GetBlockHeight
+	lastTip         uint32 // last height answered by GetBlockHeight
+	Decode          map[string]DecodeRes
 
 	plan     Plan
 	served   Served
-	effects  []string      // Coq terms
-	effJSON  []interface{} // readable form
+	effects  []string        // Coq terms
+	effJSON  []interface{}   // readable form
 	precheck map[string]bool // kinds answered permissively and not recorded (service-level pre-checks)
 	counter  int
 	crashAt  int // >0: panic when the crashAt-th effect is about to be recorded... (0 = never)
@@ -141,9 +141,9 @@ func (e *Env) fresh(prefix string) string {
 }
 
 func strp(s string) *string { return &s }
-func u64p(v uint64) *uint64  { return &v }
-func u32p(v uint32) *uint32  { return &v }
-func boolp(b bool) *bool     { return &b }
+func u64p(v uint64) *uint64 { return &v }
+func u32p(v uint32) *uint32 { return &v }
+func boolp(b bool) *bool    { return &b }
 
 func hashOf(preimageHex string) string {
 	b, err := hex.DecodeString(preimageHex)
@@ -188,7 +188,7 @@ func (s *fakeStore) UpdateData(sm *swap.SwapStateMachine) error {
 	return s.inner.UpdateData(sm)
 }
 func (s *fakeStore) GetData(id string) (*swap.SwapStateMachine, error) { return s.inner.GetData(id) }
-func (s *fakeStore) ListAll() ([]*swap.SwapStateMachine, error)         { return s.inner.ListAll() }
+func (s *fakeStore) ListAll() ([]*swap.SwapStateMachine, error)        { return s.inner.ListAll() }
 func (s *fakeStore) ListAllByPeer(p string) ([]*swap.SwapStateMachine, error) {
 	return s.inner.ListAllByPeer(p)
 }
@@ -241,8 +241,8 @@ func (m *fakeMessenger) AddMessageHandler(f func(peerId string, msgType string, 
 
 // ---- messenger manager: records start/stop, neutralises the retry goroutine ----
 type fakeManager struct {
-	env *Env
-	mu  sync.Mutex
+	env  *Env
+	mu   sync.Mutex
 	Live map[string]bool
 }
 
@@ -365,7 +365,9 @@ func (l *fakeLightning) PayInvoiceViaChannel(payreq string, channel string) (str
 	}
 	return *ans, nil
 }
-func (l *fakeLightning) AddPaymentCallback(f func(swapId string, invoiceType swap.InvoiceType)) { l.payCb = f }
+func (l *fakeLightning) AddPaymentCallback(f func(swapId string, invoiceType swap.InvoiceType)) {
+	l.payCb = f
+}
 func (l *fakeLightning) AddPaymentNotifier(swapId string, payreq string, it swap.InvoiceType) {
 	kind := "PKClaim"
 	if it == swap.INVOICE_FEE {
@@ -426,7 +428,7 @@ func (l *fakeLightning) RecoverClaimPayment(payreq string) (string, error) {
 	return *ans, nil
 }
 func (l *fakeLightning) CanSpend(amountMsat uint64) error { return nil }
-func (l *fakeLightning) Implementation() string         { return "FAKE" }
+func (l *fakeLightning) Implementation() string           { return "FAKE" }
 func (l *fakeLightning) SpendableMsat(scid string) (uint64, error) {
 	e := l.env
 	e.mu.Lock()
@@ -471,8 +473,8 @@ func (l *fakeLightning) ProbePayment(scid string, amountMsat uint64) (bool, stri
 
 // ---- chain services: one fake per chain, all three interfaces ----
 type fakeChain struct {
-	env   *Env
-	chain string
+	env    *Env
+	chain  string
 	confCb func(swapId string, txHex string, err error) error
 	csvCb  func(swapId string) error
 }
@@ -486,8 +488,10 @@ func (c *fakeChain) AddWaitForCsvTx(swapID, txID string, vout, start, csv uint32
 	c.env.effect(fmt.Sprintf("EWatchCsv %s %s %s %s", CoqStr(txID), CoqZu(uint64(vout)), CoqZu(uint64(start)), CoqZu(uint64(csv))),
 		map[string]interface{}{"e": "WatchCsv", "txid": txID, "vout": vout, "start": start, "csv": csv})
 }
-func (c *fakeChain) AddConfirmationCallback(f func(swapId string, txHex string, err error) error) { c.confCb = f }
-func (c *fakeChain) AddCsvCallback(f func(swapId string) error)                                    { c.csvCb = f }
+func (c *fakeChain) AddConfirmationCallback(f func(swapId string, txHex string, err error) error) {
+	c.confCb = f
+}
+func (c *fakeChain) AddCsvCallback(f func(swapId string) error) { c.csvCb = f }
 func (c *fakeChain) GetBlockHeight() (uint32, error) {
 	e := c.env
 	e.mu.Lock()
@@ -622,8 +626,8 @@ func (c *fakeChain) GetOutputScript(p *swap.OpeningParams) ([]byte, error) {
 	}
 	return []byte{0, 32}, nil
 }
-func (c *fakeChain) NewAddress() (string, error)    { return "addr", nil }
-func (c *fakeChain) GetRefundFee() (uint64, error)  { return 100, nil }
+func (c *fakeChain) NewAddress() (string, error)   { return "addr", nil }
+func (c *fakeChain) GetRefundFee() (uint64, error) { return 100, nil }
 func (c *fakeChain) GetFlatOpeningTXFee() (uint64, error) {
 	e := c.env
 	e.mu.Lock()
